@@ -199,6 +199,7 @@ theorem discovery (root : List Entry) :
       then some (specInto 0 (specChildren root) [⟨PKG, []⟩]) else none := by
   unfold directory
   simp only [findFiles_eq_spec]
+  rfl
 
 /-- the discovered modules, in file order, are `pkg` followed by the pre-order
     listing of the documented tree -/
